@@ -28,7 +28,12 @@ RULE = (
     "Factory spelling of default_if_none); in the class modes the class has 1-3 fields that SHARE the one converter object "
     "(harness-only variation: or equal objects built separately) plus 0-2 fields with a converter of their own in between, "
     "every sharing field is converted (each __init__ line / assignment must hand the converter its own field) and every "
-    "small tree is also run on a three-sharing-field class; in the default mode the fields are init=True or init=False (harness-only), the default is plain or a Factory, "
+    "small tree is also run on a three-sharing-field class; besides them the class has 0-3 fields with a converter of their own / a validator only / nothing, anywhere; on "
+    "assignment the value is assigned to EVERY field and the on_setattr configuration is one of 11 (class-level convert, "
+    "validate, [convert, validate], reversed, setters.pipe, the front-end default, a custom hook alone or before convert, "
+    "field-level convert / list, class validate + field convert) -- whether it runs setters.convert is the case's "
+    "`converts`; a dedicated block crosses 10 field orders (validator-only before / after / between converter fields) x "
+    "11 configurations x attr.s / define / make_class; in the default mode the fields are init=True or init=False (harness-only), the default is plain or a Factory, "
     "and a default that comes again is another instance of the SAME class, so calls and fresh factory results are judged per "
     "instance; a block of 8 object-producing trees (default_if_none(factory=) alone, in pipes, under optional, next to "
     "Converters) is used on [None, None, token, None] in every mode and default variant; a callback that runs outside a use "
@@ -72,7 +77,8 @@ LEVEL_TEXT = (
     "history, to a reference evaluator written from the statement (C19_conv_refines, C19_init_agrees, "
     "C19_model_meets_spec); on top of that C19_pipe_fold (pipe = left-to-right Kleisli fold, arbitrary lists and nesting), "
     "C19_pipe_empty_identity, C19_pipe_assoc, C19_pipe_flatten, C19_pipe_fault_prefix, C19_only_user_faults, "
-    "C19_trace_extends, C19_forwarding, C19_ctx_irrelevant, C19_optional, C19_default_if_none, C19_default_if_none_fresh "
+    "C19_trace_extends, C19_forwarding, C19_ctx_irrelevant, C19_assign_each_field (a converter field is converted on assignment whatever hook-less fields precede it), "
+    "C19_optional, C19_default_if_none, C19_default_if_none_fresh "
     "(one factory call per use, results pairwise distinct in one history). to_bool: C19_to_bool_documented (tuples "
     "re-extracted from the source on every run = documented tables, lowering step present), C19_to_bool / "
     "C19_to_bool_strings / C19_to_bool_case_variants / C19_to_bool_case_insensitive (all strings through ASCII lowering, "
